@@ -11,6 +11,7 @@ transaction and on the committed DB) every request subject x action x object lis
 """
 import json
 import os
+import shutil
 
 import vlib
 
@@ -121,7 +122,7 @@ def write_hists(res, f, tag, seen, limit=None):
     return n, samples, len(seen) - before, calls
 
 
-def go(ctx, run, env, tag, timeout=1500):
+def go(ctx, run, env, tag, timeout=2700):
     return ctx.go_test("core", PKG, HARNESS, run, env=env, tag=tag, timeout=timeout)
 
 
@@ -208,29 +209,30 @@ def run(ctx):
                        "violated": r.violated, "wall_s": round(r.wall, 1)})
         return r
 
-    # model size: the product (view, com) is what grows; MaxPending bounds the calls per tx
-    if not thorough:
-        pdm = dict(sorted(pd0.items())[1:2])
-        kw = dict(subjects=1, roles=2, pending=2, req=REQ4)
-    else:
-        pdm = dict(sorted(pd0.items())[:2])
-        kw = dict(subjects=1, roles=2, pending=2, req=REQ6)
-    err = True
-    # repaired designs: everything must hold (proves there is no window besides the named one)
-    for m in (("cascade", "refuse") if thorough else ("cascade",)):
-        r = mc("mc_" + m, mc_cfg(pdm, m, err, True, **kw), pdm)
+    # model size: the product (view, com) is what grows; MaxPending bounds the calls per tx.
+    # set A: 1 user policy + built-in policy, refused/no-op calls included; set B (thorough):
+    # 2 user policies, productive calls only.
+    sets = [("a", dict(sorted(pd0.items())[1:2]), True, dict(subjects=1, roles=2, pending=2, req=REQ4))]
+    if thorough:
+        sets.append(("b", dict(sorted(pd0.items())[:2]), False, dict(subjects=1, roles=2, pending=2, req=REQ4)))
+    window = False
+    for sn, pdm, err, kw in sets:
+        # repaired designs: everything must hold (proves there is no window besides the named one)
+        for m in (("cascade", "refuse") if thorough else ("cascade",)):
+            r = mc("mc_%s_%s" % (sn, m), mc_cfg(pdm, m, err, True, **kw), pdm)
+            if r.violated:
+                raise vlib.Inconclusive("design spec: %s violated in mode %s (spec defect)" % (r.violated, m))
+            states += r.distinct
+            trans += r.generated
+        # as written: everything except the named window holds ...
+        r = mc("mc_%s_asis" % sn, mc_cfg(pdm, "orphan", err, False, **kw), pdm)
         if r.violated:
-            raise vlib.Inconclusive("design spec: %s violated in mode %s (spec defect)" % (r.violated, m))
+            raise vlib.Inconclusive("design spec: %s violated in as-written mode (spec defect)" % r.violated)
         states += r.distinct
         trans += r.generated
-    # as written: everything except the named window holds ...
-    r = mc("mc_asis", mc_cfg(pdm, "orphan", err, False, **kw), pdm)
-    if r.violated:
-        raise vlib.Inconclusive("design spec: %s violated in as-written mode (spec defect)" % r.violated)
-    states += r.distinct
-    trans += r.generated
     # ... and the window itself is reachable (the counterexample becomes the replayed histories
     # that contain delete_role of an assigned role; the verdict comes from the real code)
+    sn, pdm, err, kw = sets[0]
     r = mc("mc_window", orphan_cfg(pdm, **kw), pdm, expect=True)
     window = r.violated == "NoOrphanGrant"
     if not window:
@@ -244,9 +246,9 @@ def run(ctx):
         plans.append(("sim", pd1, False, 9, "num=40", None))
     else:
         plans.append(("bfs", pd0, False, 5, None, None))
-        plans.append(("bfs_err", pd1, True, 4, None, None))
-        plans.append(("sim2", POLDEFS[(ctx.seed + 2) % len(POLDEFS)], False, 12, "num=150", REQ8))
-        plans.append(("sim3", POLDEFS[(ctx.seed + 3) % len(POLDEFS)], True, 12, "num=150", REQ8))
+        plans.append(("bfs_err", pd1, True, 3, None, None))
+        plans.append(("sim2", POLDEFS[(ctx.seed + 2) % len(POLDEFS)], False, 12, "num=60", REQ8))
+        plans.append(("sim3", POLDEFS[(ctx.seed + 3) % len(POLDEFS)], True, 12, "num=60", REQ8))
     total = 0
     samples = []
     stats = {"enforce_calls": 0, "allowed": 0, "deviating_requests": 0}
@@ -344,6 +346,7 @@ def run(ctx):
         "traces_validated_against_impl": total,
         "samples": samples[:3],
         "exhaustive": True,
+        "exhaustive_plans": [r["plan"] for r in replays if not r["simulated"]],
         "design_runs": design,
         "replays": replays, "replay_wall_s": replay_wall, "histories_not_ok": len(bad_rows),
         "role_delete_mode": mode,
@@ -353,9 +356,12 @@ def run(ctx):
         "requests_deviating_as_written": stats["deviating_requests"],
         "rule": "bounded-exhaustive: every behaviour of RBAC.tla of the stated depth (2 subjects + root + "
                 "never-registered subject, 2 roles + built-in Owner, 3 policies, tx view with commit/abort); "
-                "simulated plans are seeded samples. After EVERY step every subject x action x object list "
-                "(len<=2 over 6-8 objects incl. type-level and foreign-type requests) is asked of "
-                "NewEnforcer(tx).Enforce and Service.Enforce and compared with the property formula",
+                "simulated plans are seeded samples. A step whose whole call prefix was already checked in "
+                "another history is executed but not re-checked. After every other step: NewEnforcer(tx).Enforce "
+                "for every registered subject x action x object list (len<=2 over 6-8 objects incl. type-level "
+                "and foreign-type requests), for root and the never-registered subject the lists of len<=1 "
+                "(len 2 on init/commit steps); Service.Enforce (committed) for every subject x action x list of "
+                "len<=1 (len 2 on init/commit steps); each compared with the property formula",
         "notes": ctx.notes,
     }
     return ctx.finish("model_checking", cov, [
@@ -366,6 +372,43 @@ def run(ctx):
     ])
 
 
+def selftest(ctx):
+    """Binding self-test: corrupt one expected covered set in one recorded step (drop an object
+    from both the property-level and the as-written expectation) and require the harness to
+    reject exactly that history at that step on the real code."""
+    pd = POLDEFS[ctx.seed % len(POLDEFS)]
+    r = ctx.tlc(AREA, "RBACGenMC", "st.cfg",
+                files={"st.cfg": gen_cfg(pd, "orphan", False, 3), "RBACGenMC.tla": mc_module("RBACGen", pd)},
+                tag="st", workers=4)
+    target = None
+    for h in r.hists():
+        for i, st in enumerate(h):
+            for s, acts in st["v"]["p"].items():
+                for a, objs in acts.items():
+                    if s != "root" and objs and not target and "delete_role" not in [x["call"]["a"] for x in h]:
+                        o = objs[0]
+                        st["v"]["p"][s][a] = [x for x in objs if x != o]
+                        st["v"]["x"][s][a] = [x for x in st["v"]["x"][s][a] if x != o]
+                        target = (h, i, s, a, o)
+        if target:
+            break
+    if not target:
+        raise vlib.Inconclusive("selftest: no step with a grant found")
+    h, i, s, a, o = target
+    one = ctx.path("selftest.ndjson")
+    with open(one, "w") as f:
+        f.write(json.dumps(h) + "\n")
+    summ, bad, _ = replay_file(ctx, one, "selftest", workers=1)
+    hit = [b for b in bad if b.get("bad") and b["bad"]["step"] == i and b["bad"]["subj"] == s
+           and b["bad"]["action"] == a and o in (b["bad"].get("objs") or [])]
+    shutil.rmtree(ctx.build, ignore_errors=True)
+    if hit:
+        print("selftest: corrupted expectation (step %d, %s/%s minus %s) rejected: %s" % (i, s, a, o, describe(hit[0]["bad"])))
+        return 0
+    print("selftest FAILED: corrupted expectation was accepted: %s" % json.dumps(bad[:1]))
+    return 2
+
+
 def replay(ctx, path):
     with open(path) as f:
         obj = json.load(f)
@@ -374,6 +417,7 @@ def replay(ctx, path):
         f.write(json.dumps(obj["history"]) + "\n")
     summ, bad, _ = replay_file(ctx, one, "replay", workers=1, idx0=obj.get("idx0", 0))
     bad = [b for b in bad if b.get("bad") or b.get("dev")]
+    shutil.rmtree(ctx.build, ignore_errors=True)
     if bad:
         print("VIOLATION property=C18 replay=%s" % path)
         print("  " + describe(bad[0].get("bad") or bad[0].get("dev")))
